@@ -78,6 +78,32 @@ func ZZ_L1() {
 		}
 	}
 
+	if prop == 5 {
+		// a message handed to Receive a second time is a violation at that very
+		// moment (a redelivered failing message would otherwise only exhaust the
+		// harness's crash budget)
+		mon.onUser = func(seq int) {
+			for _, rec := range mon.recs {
+				if rec.kind != zzKUser || rec.seq != seq {
+					continue
+				}
+				for _, c := range mon.recs {
+					if c.kind == zzKUser && c.crashed {
+						for _, r := range pills {
+							if r.graceful && c.seq >= r.usersBefore {
+								zzrt.Fail("C05:message-redelivered-or-reordered[panic-while-draining-behind-poison-pill]")
+							}
+						}
+					}
+				}
+				if rec.crashed {
+					zzrt.Fail("C05:failing-message-redelivered")
+				}
+				zzrt.Fail("C05:message-redelivered-or-reordered")
+			}
+		}
+	}
+
 	escaped := false
 	guard := func(f func()) {
 		defer func() {
